@@ -767,18 +767,32 @@ package saml
 //@      redirectQuery("", requestStr.String(), relayState) + "&SigAlg=" + url.QueryEscape(sp.SignatureMethod) + "&Signature=")
 
 //@ -- where the SP sends a message: the Location (never the ResponseLocation) of the first IdP endpoint with the asked binding
+//@ -- (a postcondition over the metadata, not over the loop variable that happens to hold the endpoint: what is returned
+//@ -- is "" or the Location - never the ResponseLocation - of an IdP endpoint of that kind with the asked binding)
+//@ go func ssoLocation(sp *ServiceProvider, binding string, loc string) bool {
+//@    return exists(0, len(sp.IDPMetadata.IDPSSODescriptors), func(i int) bool {
+//@      return exists(0, len(sp.IDPMetadata.IDPSSODescriptors[i].SingleSignOnServices), func(j int) bool {
+//@        return sp.IDPMetadata.IDPSSODescriptors[i].SingleSignOnServices[j].Binding == binding &&
+//@          sp.IDPMetadata.IDPSSODescriptors[i].SingleSignOnServices[j].Location == loc }) }) }
+//@ go func sloLocation(sp *ServiceProvider, binding string, loc string) bool {
+//@    return exists(0, len(sp.IDPMetadata.IDPSSODescriptors), func(i int) bool {
+//@      return exists(0, len(sp.IDPMetadata.IDPSSODescriptors[i].SingleLogoutServices), func(j int) bool {
+//@        return sp.IDPMetadata.IDPSSODescriptors[i].SingleLogoutServices[j].Binding == binding &&
+//@          sp.IDPMetadata.IDPSSODescriptors[i].SingleLogoutServices[j].Location == loc }) }) }
+//@ go func artifactLocation(sp *ServiceProvider, binding string, loc string) bool {
+//@    return exists(0, len(sp.IDPMetadata.IDPSSODescriptors), func(i int) bool {
+//@      return exists(0, len(sp.IDPMetadata.IDPSSODescriptors[i].ArtifactResolutionServices), func(j int) bool {
+//@        return sp.IDPMetadata.IDPSSODescriptors[i].ArtifactResolutionServices[j].Binding == binding &&
+//@          sp.IDPMetadata.IDPSSODescriptors[i].ArtifactResolutionServices[j].Location == loc }) }) }
 //@ contract (*ServiceProvider).GetSSOBindingLocation
 //@ requires[cfg] md: sp.IDPMetadata != nil
-//@ assert@return[C12,C13] #1 (out string) uses singleSignOnService Endpoint location_of_matching_endpoint:
-//@    out == singleSignOnService.Location && singleSignOnService.Binding == binding
+//@ ensures[C12,C13] location_of_matching_endpoint: result != "" ==> ssoLocation(sp, binding, result)
 //@ contract (*ServiceProvider).GetSLOBindingLocation
 //@ requires[cfg] md: sp.IDPMetadata != nil
-//@ assert@return[C12,C13] #1 (out string) uses singleLogoutService Endpoint location_of_matching_endpoint:
-//@    out == singleLogoutService.Location && singleLogoutService.Binding == binding
+//@ ensures[C12,C13] location_of_matching_endpoint: result != "" ==> sloLocation(sp, binding, result)
 //@ contract (*ServiceProvider).GetArtifactBindingLocation
 //@ requires[cfg] md: sp.IDPMetadata != nil
-//@ assert@return[C12,C13] #1 (out string) uses artifactResolutionService Endpoint location_of_matching_endpoint:
-//@    out == artifactResolutionService.Location && artifactResolutionService.Binding == binding
+//@ ensures[C12,C13] location_of_matching_endpoint: result != "" ==> artifactLocation(sp, binding, result)
 
 //@ -- the convenience wrappers: the message they emit is the one the constructor built for the matching binding location, and
 //@ -- the caller's relay state is handed to the emitter unchanged (each emitter escapes it exactly once itself)
